@@ -41,10 +41,13 @@ func init() {
 		Runs: []Run{
 			{Pkg: "fasthttp", Func: "vhC29ResponseOps", Quick: map[string]int{"ops": 4}, Thorough: map[string]int{"ops": 5}, PathCap: 400000},
 			{Pkg: "fasthttp", Func: "vhC29RequestOps", Quick: map[string]int{"ops": 4}, Thorough: map[string]int{"ops": 5}, PathCap: 400000},
+			{Pkg: "fasthttp", Func: "vhC29SpecialResponse", Quick: map[string]int{"ops": 2}, Thorough: map[string]int{"ops": 3}, PathCap: 1500000},
+			{Pkg: "fasthttp", Func: "vhC29SpecialRequest", Quick: map[string]int{"ops": 2}, Thorough: map[string]int{"ops": 3}, PathCap: 1500000},
 		},
 		Assume: []string{
 			"operation alphabet Add/Set/Del over the ordinary names {X-A, x-a, X-B, x-C} (mixed case, normalisation on) with one-byte symbolic values ≠ CR/LF, observed through PeekAll/Peek/Len",
-			"special names (Content-Type, Host, Cookie, ...), disabled normalisation, CopyTo and the write→read-back clause are outside this check",
+			"special names: 2 (quick) / 3 (thorough) Add/Set/Del operations over {Content-Type (two spellings), Server / Host, User-Agent, Connection (value close or arbitrary), Content-Encoding} mixed with ordinary names, one visible symbolic byte per value; the model makes special names single-valued (Add replaces); after the operations the header, a CopyTo copy and the header read back from its own serialisation are compared with the model through Peek/PeekAll",
+			"Cookie/Set-Cookie/Trailer/Content-Length/Date/Transfer-Encoding as operands, disabled normalisation and longer values are outside this check",
 		},
 	})
 	register(&Property{
